@@ -1,4 +1,5 @@
 import SockModel.Model.LocksLemmas
+import SockModel.Spec.C04
 import SockModel.Model.DispatchQuiesce
 import SockModel.Model.ToDosQuiesce
 /-!
@@ -68,6 +69,55 @@ theorem example_reachable : ∃ s, Reach s ∧ s.d = .atPoll true ∧ s.u 7 = .w
   have r6 := Reach.step r5 (Tr.uLockPause (t := 7) (by simp) rfl)
   have r7 := Reach.step r6 (Tr.uBump (t := 7) (by simp))
   exact ⟨_, r7, rfl, by simp, rfl⟩
+
+/-! ### the run-time oracle is a theorem of the model (`Spec/C04.lean`) -/
+open Spec in
+/-- the predicate `./check C04` evaluates on the implementation's scheduler trace (`Spec/C04.lean`:
+`specStep` in mode C04 = monitor `stepA`: nobody acquires `stepMtx` while another thread holds it, handlers
+and tasks run on the thread executing Step/Run while it holds `stepMtx`, never two at a time, nothing of a
+socket / ToDo starts or is still running once its destructor / `Cancel` has returned on another thread;
+outcomes `deadlock`, `stuck`, `crash` are failures) accepts every trace of the model: for every history of
+any length - any interleaving of transitions of the lock LTS by the driver thread and any number of user
+threads with any programs, management calls (attach, close, cancel, shift, create) returning from their
+critical sections, recursive acquisitions, handlers of registered sockets and tasks of listed ToDos invoked
+inside a step, management calls from inside them.  No hypothesis. -/
+theorem spec_holds_on_model (history : List MOp) :
+    ∃ s, specRun ⟨true, false, false⟩ {} (modelTrace {} history) = .ok s :=
+  model_satisfies_spec _ history
+
+section Examples
+open Spec
+
+/-- non-vacuity: the driver runs, task `a` is in progress; user 0 fails its try-lock, takes `pauseMtx`,
+bumps, gets `stepMtx` after the task returned, cancels ToDo `b` and returns; socket `s` is attached and
+closed by user 1; a Stop from user 2 ends the Run - 50 observations, accepted in every mode -/
+def sampleHistory : List MOp :=
+  [.tr (.uTryOk 0), .ret 0 "a" .todo, .tr (.uTryOk 0), .ret 0 "b" .todo, .tr (.uTryOk 1), .ret 1 "s" .attach,
+   .tr .dRunEnter, .tr .dRunGo, .tr .dLockStep, .enter .task "a", .tr (.uTryFail 0), .tr (.uLockPause 0),
+   .tr (.uBump 0), .retry 0, .dret "a" .shift, .reunlock 0, .exit, .tr .dToPoll, .tr .dPollPipe, .tr .dUnlockStep,
+   .tr (.uLockStep 0), .tr (.uRelPause 0), .ret 0 "b" .cancel, .tr .dLockPause, .tr .dUnlockPause, .tr .dRunGo,
+   .tr .dLockStep, .enter .task "b", .enter .task "a", .exit, .tr (.uTryFail 1), .tr (.uStopSet 2),
+   .tr (.uStopBump 2), .tr .dToPoll, .tr .dPollPipe, .enter .handler "s", .exit, .tr .dUnlockStep, .tr .dLockPause,
+   .tr .dUnlockPause, .tr .dRunExit, .tr (.uLockPause 1), .tr (.uBump 1), .tr (.uLockStep 1), .tr (.uRelPause 1),
+   .ret 1 "s" .close, .enter .handler "s", .done]
+
+example : (modelTrace {} sampleHistory).length = 50 := by decide
+example : accepts ⟨true, true, true⟩ (modelTrace {} sampleHistory) = true := by decide
+/-- the cancelled task `b` was not invoked (`enter .task "b"` is not an operation of the model then) -/
+example : (modelTrace {} sampleHistory).contains (.ev 0 (.enter .task "b")) = false := by decide
+
+/-- the predicate is not vacuous: it rejects a second owner of `stepMtx`, a task started after its `Cancel`
+returned on another thread, a `Cancel` returning while the task runs, a handler on a user thread -/
+example : accepts ⟨true, false, false⟩ [.ev 0 .lockStep, .ev 1 .tryStepOk] = false := by decide
+example : accepts ⟨true, false, false⟩
+    [.ev 1 .tryStepOk, .ev 1 .unlockStep, .ev 1 (.endAct "u1" .cancel), .ev 0 .lockStep, .ev 0 (.enter .task "u1")] = false := by
+  decide
+example : accepts ⟨true, false, false⟩
+    [.ev 0 .lockStep, .ev 0 (.enter .task "u1"), .ev 1 (.endAct "u1" .cancel)] = false := by decide
+example : accepts ⟨true, false, false⟩ [.ev 1 .tryStepOk, .ev 1 (.enter .handler "u1")] = false := by decide
+example : accepts ⟨true, false, false⟩ [.deadlock "T0(drv):poll t=-1"] = false := by decide
+
+end Examples
 
 end SockModel.Locks
 
